@@ -313,6 +313,9 @@ impl Qcow2Header {
 
         // table sizes drive allocations: hold them to the format's limits
         let rt_size = (header.refcount_table_clusters as u64) << cluster_bits;
+        if rt_size == 0 {
+            return Err("qcow2 image without refcount table".into());
+        }
         if rt_size > Self::MAX_REFCOUNT_TABLE_SIZE as u64 {
             return Err(format!("qcow2 refcount table size {rt_size} is too big").into());
         }
